@@ -50,7 +50,9 @@ def fold_term(I, opname, init_t, seq_t):
     """fold_<op>(init, seq): left fold of a binary operator; outcome may raise."""
     c = I.ctx
     val = fn(f"fold_{opname}", V, S, V)(init_t, seq_t)
+    c.assume(z3.Implies(z3.Length(seq_t) == 0, val == init_t))
     if I.op_may_raise:
+        c.assume(z3.Implies(z3.Length(seq_t) == 0, fn(f"foldok_{opname}", V, S, Bool)(init_t, seq_t)))
         ok = fn(f"foldok_{opname}", V, S, Bool)(init_t, seq_t)
         if not I.decide(ok):
             raise PyRaise(SymExc(None, (), term=fn(f"foldexc_{opname}", V, S, V)(init_t, seq_t), origin=f"fold_{opname}"))
@@ -459,12 +461,13 @@ def install(I):
             for x in ci:
                 acc = I.binop("add", acc, x)
             return acc
-        hk = H.get("__sum_hook__")
-        if hk is not None:
-            r = hk(I, v, init)
-            if r is not None:
-                return r
-        return fold_term(I, "add", I.lift(init), I.as_seq(v))
+        sq = I.as_seq(v)
+        i0 = I.as_int(init)
+        if i0 is not None:
+            t = I.int_sum_of_seq(z3.simplify(sq) if sq.decl().kind() == z3.Z3_OP_SEQ_CONCAT else sq)
+            if t is not None:
+                return SymInt(i0 + t)
+        return fold_term(I, "add", I.lift(init), sq)
 
     @reg(functools.reduce)
     def _reduce(I, args, kw, star, dstar, node):
@@ -730,6 +733,18 @@ def value_method(I, obj, name, args, kw, node):
             if len(args) > 1:
                 return args[1]
             raise PyRaise(SymExc(KeyError, (args[0],), origin="pop"))
+    if isinstance(obj, SymDict):
+        if name == "get":
+            found, v = I.symdict_lookup(obj, args[0])
+            if found:
+                return v
+            return args[1] if len(args) > 1 else Conc(None)
+        if name == "setdefault":
+            found, v = I.symdict_lookup(obj, args[0])
+            if found:
+                return v
+            I.setitem(obj, args[0], args[1] if len(args) > 1 else Conc(None))
+            return args[1] if len(args) > 1 else Conc(None)
     if isinstance(obj, SymMap):
         if name == "items":
             return ("items", obj)
@@ -754,7 +769,10 @@ def value_method(I, obj, name, args, kw, node):
                 t = z3.SetUnion(t, I.as_set(a))
             return SymSet(t)
         if name == "add":
-            raise Unsupported("mutation of symbolic set (use hook)")
+            if I.pure_depth:
+                raise Unsupported("mutation inside lifted body")
+            obj.t = z3.SetAdd(obj.t, I.lift(args[0]))
+            return Conc(None)
     h = I.builtin_handlers.get("__value_method_hook__")
     if h is not None:
         r = h(I, obj, name, args, kw)
